@@ -15,6 +15,11 @@ use std::sync::Mutex;
 use std::time::Instant;
 
 pub const VERIF_DIR: &str = "/verif";
+/// where evidence and replay files go; development runs against a scratch copy of the repository (tools/check_in_worktree.sh)
+/// set VERIF_OUT_DIR so that they do not overwrite the files of the registered commands
+pub fn out_dir() -> String {
+    std::env::var("VERIF_OUT_DIR").unwrap_or_else(|_| VERIF_DIR.to_string())
+}
 
 #[derive(Clone, Copy, PartialEq, Eq, Debug)]
 pub enum Tier {
@@ -60,7 +65,7 @@ pub struct Ctx {
 
 impl Ctx {
     pub fn new(prop: &'static str, tier: Tier) -> Ctx {
-        let _ = std::fs::remove_dir_all(format!("{VERIF_DIR}/replays/{prop}"));
+        let _ = std::fs::remove_dir_all(format!("{}/replays/{prop}", out_dir()));
         Self::for_replay(prop, tier)
     }
     /// a context that leaves the replay directory alone (finish() is not meant to be called on it)
@@ -166,7 +171,7 @@ impl Ctx {
         let merr = self.machinery_errors.lock().unwrap();
         let mut unknown = 0;
         let mut known_seen = vec![];
-        let dir = format!("{VERIF_DIR}/replays/{}", self.prop);
+        let dir = format!("{}/replays/{}", out_dir(), self.prop);
         let _ = std::fs::create_dir_all(&dir);
         let mut lines = vec![];
         for (key, (_, witness, n)) in viol.iter() {
@@ -222,9 +227,9 @@ impl Ctx {
             "wall_s": (self.elapsed() * 1000.0).round() / 1000.0,
             "violations": unknown,
         });
-        let _ = std::fs::create_dir_all(format!("{VERIF_DIR}/evidence"));
+        let _ = std::fs::create_dir_all(format!("{}/evidence", out_dir()));
         std::fs::write(
-            format!("{VERIF_DIR}/evidence/{}.json", self.prop),
+            format!("{}/evidence/{}.json", out_dir(), self.prop),
             serde_json::to_string_pretty(&ev).unwrap(),
         )
         .expect("cannot write evidence");
